@@ -572,6 +572,18 @@ func runCloneRules(r *Run, clones []cloneFn, rulePrefix string, aliasMode int, s
 		// field mapping and aliasing
 		for _, fn := range withClosures(cf.Fn) {
 			allInstrs(fn, func(in ssa.Instruction) {
+				// copy(dst, src) of a slice of pointers: the copy's slice is new, the objects are the source's
+				if c, ok := in.(*ssa.Call); ok && wantAlias {
+					if b, ok := c.Call.Value.(*ssa.Builtin); ok && b.Name() == "copy" && len(c.Call.Args) == 2 {
+						if sl, ok := c.Call.Args[1].Type().Underlying().(*types.Slice); ok && isPointerLike(sl.Elem()) && a.srcDerived(c.Call.Args[1]) && !a.srcDerived(c.Call.Args[0]) {
+							if _, isStr := sl.Elem().Underlying().(*types.Basic); !isStr {
+								bad, why := aliasBad(nil, sl.Elem())
+								r.Check(rulePrefix+"-alias", fmt.Sprintf("%s:copy[]%s", fname, typeName(sl.Elem())), c.Pos(), !bad,
+									fmt.Sprintf("%s copies a slice of %s element by element with copy(): the new slice holds the source's objects: %s", fname, sl.Elem(), why))
+							}
+						}
+					}
+				}
 				// an entry of the source put into a map of the copy as it is (c.styles[id] = s)
 				if mu, ok := in.(*ssa.MapUpdate); ok && wantAlias {
 					if isPointerLike(mu.Value.Type()) && a.srcDerived(mu.Value) && !isFreshValue(p, mu.Value) && !a.srcDerived(mu.Map) {
@@ -923,7 +935,7 @@ func ruleCloneAliasFor(owners ...string) func(r *Run) {
 			if len(owners) > 0 {
 				hit := false
 				for _, ow := range owners {
-					if strings.Contains(o.Key, ":"+ow+".") || strings.Contains(o.Key, ":[]"+ow) {
+					if strings.Contains(o.Key, ":"+ow+".") || strings.Contains(o.Key, ":[]"+ow) || strings.Contains(o.Key, "[]document."+ow) {
 						hit = true
 					}
 				}
